@@ -31,6 +31,12 @@ def opVacuumNew : P String := do
     | .ok a => "ok " ++ outAtmo a
     | .error _ => "err:humidity")
 
+def opAtmoSetHum : P String := do
+  let a ← pAtmo; let vac ← pBool; let h ← pF
+  pure (match a.setHumidity vac h with
+    | .ok b => "ok " ++ outAtmo b
+    | .error _ => "err:humidity")
+
 def opAtmoAt : P String := do
   let a ← pAtmo
   let alts ← pList pF
@@ -133,7 +139,7 @@ def opInit : P String := do
     " " ++ outFs (r.winds.toList.flatMap fun w => [w.untilFt, w.vec.x, w.vec.y, w.vec.z]))
 
 def trajTable : List (String × P String) := [
-  ("atmo_new", opAtmoNew), ("vacuum_new", opVacuumNew), ("atmo_at", opAtmoAt), ("atmo_std", opAtmoStd),
+  ("atmo_new", opAtmoNew), ("vacuum_new", opVacuumNew), ("atmo_at", opAtmoAt), ("atmo_sethum", opAtmoSetHum), ("atmo_std", opAtmoStd),
   ("air_density", opAirDensity), ("row", opRow), ("spin", opSpin), ("fire", opFire), ("zero", opZero),
   ("init", opInit)]
 
